@@ -312,8 +312,14 @@ bool hasComponentImports(const ComponentEntityConstPtr &componentEntity)
     return importsPresent;
 }
 
-bool hasUnitsImports(const UnitsPtr &units)
+bool hasUnitsImports(const UnitsPtr &units, std::vector<UnitsPtr> &visited)
 {
+    // Units that (wrongly) reference each other in a cycle must not send us round in circles.
+    if (std::find(visited.begin(), visited.end(), units) != visited.end()) {
+        return false;
+    }
+    visited.push_back(units);
+
     bool importPresent = units->isImport();
     auto model = owningModel(units);
     size_t unistCount = units->unitCount();
@@ -321,7 +327,7 @@ bool hasUnitsImports(const UnitsPtr &units)
         std::string reference = units->unitAttributeReference(index);
         if (!reference.empty() && !isStandardUnitName(reference)) {
             if (model->hasUnits(reference)) {
-                importPresent = hasUnitsImports(model->units(reference));
+                importPresent = hasUnitsImports(model->units(reference), visited);
             }
         }
     }
@@ -333,7 +339,8 @@ bool Model::hasImports() const
     bool importsPresent = false;
     for (size_t index = 0; (index < unitsCount()) && !importsPresent; ++index) {
         libcellml::UnitsPtr units = Model::units(index);
-        importsPresent = hasUnitsImports(units);
+        std::vector<UnitsPtr> visited;
+        importsPresent = hasUnitsImports(units, visited);
     }
 
     if (!importsPresent) {
